@@ -68,11 +68,27 @@ theorem wf_fresh : WF ({} : Client) := by
 theorem held_fresh (se : Nat) : ¬ held ({} : Client) se := by
   rintro ⟨ce, ent, h, _⟩; cases h
 
+/-- every message of the list is acceptable (`MsgOk`) for the client that applied the ones before -/
+def logOkFrom : Client → List Update → Prop
+  | _, [] => True
+  | c, u :: us => MsgOk c u ∧ logOkFrom (applyUpdate c u) us
+
+theorem logOkFrom_append (us : List Update) (u : Update) : ∀ (c : Client),
+    logOkFrom c (us ++ [u]) ↔ logOkFrom c us ∧ MsgOk (us.foldl applyUpdate c) u := by
+  induction us with
+  | nil => intro c; simp [logOkFrom]
+  | cons v vs ih =>
+    intro c
+    simp only [List.cons_append, logOkFrom, List.foldl_cons, ih]
+    constructor
+    · rintro ⟨a, b, d⟩; exact ⟨⟨a, b⟩, d⟩
+    · rintro ⟨⟨a, b⟩, d⟩; exact ⟨a, b, d⟩
+
 /-- per client: no pending mapping, nothing sent while unauthorized, and the replayed client is
 well-formed and holds exactly the tracked entities -/
 def CliSess (log : Log) (x : Nat × Cli) : Prop :=
   x.2.mappings = [] ∧ (x.2.authorized = false → log x.1 = []) ∧
-  WF (replay (log x.1)) ∧ ∀ se, held (replay (log x.1)) se ↔ se ∈ keys x.2
+  WF (replay (log x.1)) ∧ (∀ se, held (replay (log x.1)) se ↔ se ∈ keys x.2) ∧ logOkFrom {} (log x.1)
 
 structure SessInv (st : St) (log : Log) : Prop where
   sync : SyncInv st.srv
@@ -81,7 +97,7 @@ structure SessInv (st : St) (log : Log) : Prop where
 
 theorem cliSess_fresh (log : Log) (c : Nat) (cl : Cli) (hm : cl.mappings = []) (hk : cl.mutTick = [])
     (hl : log c = []) : CliSess log (c, cl) := by
-  refine ⟨hm, fun _ => hl, ?_, ?_⟩
+  refine ⟨hm, fun _ => hl, ?_, ?_, ?_⟩
   · show WF (replay (log c)); rw [hl]; exact wf_fresh
   · intro se
     show held (replay (log c)) se ↔ se ∈ keys cl
@@ -90,12 +106,13 @@ theorem cliSess_fresh (log : Log) (c : Nat) (cl : Cli) (hm : cl.mappings = []) (
     constructor
     · intro h; exact absurd h (held_fresh se)
     · intro h; cases h
+  · show logOkFrom {} (log c); rw [hl]; trivial
 
 theorem cliSess_congr (log : Log) (c : Nat) (cl cl' : Cli) (hm : cl'.mappings = cl.mappings)
     (ha : cl'.authorized = cl.authorized) (hk : ∀ j, j ∈ keys cl' ↔ j ∈ keys cl) (h : CliSess log (c, cl)) :
     CliSess log (c, cl') := by
-  obtain ⟨h1, h2, h3, h4⟩ := h
-  exact ⟨hm.trans h1, fun hf => h2 (ha ▸ hf), h3, fun se => (h4 se).trans (hk se).symm⟩
+  obtain ⟨h1, h2, h3, h4, h5⟩ := h
+  exact ⟨hm.trans h1, fun hf => h2 (ha ▸ hf), h3, fun se => (h4 se).trans (hk se).symm, h5⟩
 
 /-- a step that leaves clients and log alone -/
 theorem sess_same (st st' : St) (log : Log) (inv : SessInv st log) (hs : SyncInv st'.srv) (hr : RemInv st'.srv)
@@ -240,7 +257,7 @@ theorem sess_frame_ran (st : St) (log : Log) (ticked : Bool) (ms : Nat) (parts :
   have hyc : CliSess log y := by
     rw [← hzy]
     exact cliSess_congr log z.1 z.2 _ (preG_mappings _ _ _) (preG_sync _ _ _).2.2 (preG_sync _ _ _).2.1 hzs
-  obtain ⟨m1, m2, m3, m4⟩ := hyc
+  obtain ⟨m1, m2, m3, m4, m5⟩ := hyc
   have hag : aget (preRun st.srv ticked ms).clients y.1 = some y.2 :=
     aget_of_mem_nodup _ y.1 y.2 invp.clientsNodup hy
   have hlog : logStep st log (.frame ticked ms parts) y.1 =
@@ -263,11 +280,12 @@ theorem sess_frame_ran (st : St) (log : Log) (ticked : Bool) (ms : Nat) (parts :
     rw [hrc]
     have hl : logStep st log (.frame ticked ms parts) y.1 = log y.1 := by
       rw [hlog]; simp only [ha, Bool.false_eq_true, if_false]
-    refine ⟨m1, fun _ => by rw [hl]; exact m2 ha, ?_, ?_⟩
+    refine ⟨m1, fun _ => by rw [hl]; exact m2 ha, ?_, ?_, ?_⟩
     · show WF (replay (logStep st log (.frame ticked ms parts) y.1)); rw [hl]; exact m3
     · intro se
       show held (replay (logStep st log (.frame ticked ms parts) y.1)) se ↔ se ∈ keys y.2
       rw [hl]; exact m4 se
+    · show logOkFrom {} (logStep st log (.frame ticked ms parts) y.1); rw [hl]; exact m5
   | true =>
     have hb := frame_both_sides (preRun st.srv ticked ms) parts invp hrm y hy ha m1 (replay (log y.1)) m3 m4
     have hl : logStep st log (.frame ticked ms parts) y.1 =
@@ -282,7 +300,15 @@ theorem sess_frame_ran (st : St) (log : Log) (ticked : Bool) (ms : Nat) (parts :
     have hna : (ranClient (preRun st.srv ticked ms) parts y).2.authorized = false →
         logStep st log (.frame ticked ms parts) (ranClient (preRun st.srv ticked ms) parts y).1 = [] := by
       intro hf; rw [hauth] at hf; cases hf
-    refine ⟨hmap, hna, ?_, ?_⟩
+    have hok : logOkFrom {} (logStep st log (.frame ticked ms parts) y.1) := by
+      rw [hl]
+      cases hu : (runClient (preRun st.srv ticked ms) ((preRun st.srv ticked ms).now + 1) y.2).2.update with
+      | none => simp only; exact m5
+      | some u =>
+        simp only
+        rw [logOkFrom_append]
+        exact ⟨m5, frame_msg_ok (preRun st.srv ticked ms) invp hrm y hy m1 (replay (log y.1)) m4 u hu⟩
+    refine ⟨hmap, hna, ?_, ?_, hok⟩
     · show WF (replay (logStep st log (.frame ticked ms parts) y.1))
       rw [hl]
       cases hu : (runClient (preRun st.srv ticked ms) ((preRun st.srv ticked ms).now + 1) y.2).2.update with
@@ -312,10 +338,11 @@ theorem logStep_frame_nil (st : St) (log : Log) (ticked : Bool) (ms : Nat) (part
   rfl
 
 theorem cliSess_log (log log' : Log) (x : Nat × Cli) (h : log' x.1 = log x.1) (hs : CliSess log x) : CliSess log' x := by
-  obtain ⟨h1, h2, h3, h4⟩ := hs
-  refine ⟨h1, fun hf => by rw [h]; exact h2 hf, ?_, ?_⟩
+  obtain ⟨h1, h2, h3, h4, h5⟩ := hs
+  refine ⟨h1, fun hf => by rw [h]; exact h2 hf, ?_, ?_, ?_⟩
   · rw [h]; exact h3
   · intro se; rw [h]; exact h4 se
+  · rw [h]; exact h5
 
 theorem sess_step (st : St) (log : Log) (op : Op) (inv : SessInv st log) (hl : LegalOp2 st.srv op) :
     SessInv (step st op).1 (logStep st log op) := by
@@ -423,7 +450,7 @@ theorem session_entities (s0 : Server) (hw : s0.world = []) (hc0 : s0.clients = 
   have inv := sess_run ops _ _ inv0 hl
   intro x hx
   rw [← runLog_fst ops _ (fun _ => [])] at hx
-  obtain ⟨_, _, h3, h4⟩ := inv.cli x hx
+  obtain ⟨_, _, h3, h4, _⟩ := inv.cli x hx
   exact ⟨h3, h4⟩
 
 
@@ -472,5 +499,154 @@ theorem session_view (s0 : Server) (hw : s0.world = []) (hc0 : s0.clients = []) 
   have hview := (history_sync s0 hw hc0 ops (legal_of_legal' ops _ (legal'_of_legal2 ops _ hlp)) ticked ms parts hr hc).1
   rw [run_append] at hx ⊢
   exact hview x hx ha se
+
+end Replicon.Joint
+
+namespace Replicon.Cli
+open Replicon Replicon.Srv
+
+/-- one record of a mutate message changes neither the well-formedness nor the held entities -/
+theorem applyMutEnt_keeps (c : Client) (tick : Nat) (m : MsgEnt) (wf : WF c) (c' : Client)
+    (h : applyMutEnt c tick m = .ok c') : Keeps c c' := by
+  unfold applyMutEnt at h
+  cases hg : aget c.s2c m.ent with
+  | none => rw [hg] at h; simp only [Res.ok.injEq] at h; rw [← h]; exact Keeps.refl c wf
+  | some ce =>
+    rw [hg] at h
+    simp only at h
+    cases hw : aget c.world ce with
+    | none => rw [hw] at h; cases h
+    | some ent =>
+      rw [hw] at h
+      simp only at h
+      cases hh : ent.hist with
+      | none => rw [hh] at h; cases h
+      | some last =>
+        rw [hh] at h
+        simp only at h
+        split at h
+        · simp only [Res.ok.injEq] at h
+          rw [← h]
+          have k1 := confirm_keeps c ce tick wf
+          exact Keeps.trans k1 (writeComps_keeps ce m.comps _ k1.1)
+        · simp only [Res.ok.injEq] at h
+          rw [← h]; exact Keeps.refl c wf
+
+theorem applyMutate_keeps (c : Client) (m : Mutate) (wf : WF c) : Keeps c (applyMutate c m) := by
+  unfold applyMutate
+  have : ∀ (l : List MsgEnt) (acc : Client × Bool), Keeps c acc.1 →
+      Keeps c (l.foldl (fun (acc : Client × Bool) e =>
+        if acc.2 then acc else
+        match applyMutEnt acc.1 m.tick e with
+        | .ok c' => (c', false)
+        | _ => (acc.1, true)) acc).1 := by
+    intro l
+    induction l with
+    | nil => intro acc h; exact h
+    | cons e es ih =>
+      intro acc h
+      rw [List.foldl_cons]
+      apply ih
+      split
+      · exact h
+      · cases hr : applyMutEnt acc.1 m.tick e with
+        | ok c' => exact Keeps.trans h (applyMutEnt_keeps acc.1 m.tick e h.1 c' hr)
+        | err => exact h
+        | panic site => exact h
+  exact this _ _ (Keeps.refl c wf)
+
+end Replicon.Cli
+
+namespace Replicon.Cli
+open Replicon Replicon.Srv
+
+/-- what reaches a client: update messages (reliable, ordered) and whatever the unreliable
+channel delivers — any mutate messages, any number of times, in any order, anywhere in between -/
+inductive Arrival where
+  | upd (u : Update)
+  | mutate (m : Mutate)
+
+def runArrivals (c : Client) : List Arrival → Client
+  | [] => c
+  | .upd u :: rest => runArrivals (applyUpdate c u) rest
+  | .mutate m :: rest => runArrivals (applyMutate c m) rest
+
+def updatesOf : List Arrival → List Update
+  | [] => []
+  | .upd u :: rest => u :: updatesOf rest
+  | .mutate _ :: rest => updatesOf rest
+
+theorem msgOk_transfer (c1 c2 : Client) (u : Update) (hh : ∀ se, held c1 se ↔ held c2 se) (h : MsgOk c2 u) : MsgOk c1 u := by
+  obtain ⟨h1, h2⟩ := h
+  refine ⟨h1, ?_⟩
+  intro r hr
+  rcases h2 r hr with ⟨a, b⟩ | a
+  · exact Or.inl ⟨(hh r.1).mpr a, b⟩
+  · exact Or.inr a
+
+/-- mutate messages never change which entities are held: a client that receives the update
+messages in order, with arbitrary mutate messages in between, holds what the client that
+receives only the update messages holds -/
+theorem arrivals_sim : ∀ (l : List Arrival) (c1 c2 : Client), WF c1 → WF c2 → (∀ se, held c1 se ↔ held c2 se) →
+    Joint.logOkFrom c2 (updatesOf l) →
+    WF (runArrivals c1 l) ∧ ∀ se, held (runArrivals c1 l) se ↔ held ((updatesOf l).foldl applyUpdate c2) se := by
+  intro l
+  induction l with
+  | nil => intro c1 c2 w1 _ hh _; exact ⟨w1, hh⟩
+  | cons a rest ih =>
+    intro c1 c2 w1 w2 hh hok
+    cases a with
+    | mutate m =>
+      have k := applyMutate_keeps c1 m w1
+      exact ih (applyMutate c1 m) c2 k.1 w2 (fun se => (k.2.1 se).trans (hh se)) hok
+    | upd u =>
+      obtain ⟨ok2, okrest⟩ := hok
+      have ok1 := msgOk_transfer c1 c2 u hh ok2
+      obtain ⟨w1', h1'⟩ := applyUpdate_held c1 u w1 ok1.1 ok1.2
+      obtain ⟨w2', h2'⟩ := applyUpdate_held c2 u w2 ok2.1 ok2.2
+      apply ih (applyUpdate c1 u) (applyUpdate c2 u) w1' w2' _ okrest
+      intro se
+      rw [h1' se, h2' se, hh se]
+
+end Replicon.Cli
+
+namespace Replicon.Joint
+open Replicon Replicon.Srv Replicon.Cli
+
+/-- **End to end, entity level, ALL histories, ANY behaviour of the unreliable channel.**  As
+`session_view`, for a receiver that gets the session's update messages in order and, anywhere
+in between, arbitrary mutate messages (lost, duplicated, reordered, stale or not even sent by
+this server): it stays well-formed and holds exactly the replicated entities visible to it. -/
+theorem session_view_any_schedule (s0 : Server) (hw : s0.world = []) (hc0 : s0.clients = []) (hb : s0.removalBuf = [])
+    (ops : List Op) (ticked : Bool) (ms : Nat) (parts : Nat → List (List Nat))
+    (hl : Legal2 { srv := s0 } (ops ++ [.frame ticked ms parts]))
+    (hr : (run { srv := s0 } ops).1.srv.running = true)
+    (hc : (preRun (run { srv := s0 } ops).1.srv ticked ms).tickChanged = true) :
+    ∀ x ∈ (run { srv := s0 } (ops ++ [.frame ticked ms parts])).1.srv.clients, x.2.authorized = true →
+      ∀ arrivals : List Arrival,
+        updatesOf arrivals = (runLog { srv := s0 } (fun _ => []) (ops ++ [.frame ticked ms parts])).2 x.1 →
+        WF (runArrivals {} arrivals) ∧
+        ∀ se, held (runArrivals {} arrivals) se ↔
+          marked (run { srv := s0 } (ops ++ [.frame ticked ms parts])).1.srv.world se ∧
+          Vis.isVisible (run { srv := s0 } (ops ++ [.frame ticked ms parts])).1.srv.white (cell x.2 se) = true := by
+  intro x hx ha arrivals harr
+  obtain ⟨_, hview⟩ := session_view s0 hw hc0 hb ops ticked ms parts hl hr hc x hx ha
+  have inv0 : SessInv ({ srv := s0 } : St) (fun _ => []) := by
+    refine ⟨sync_empty s0 hw hc0, ⟨fun _ => hb, fun _ r hrm => ?_⟩, ?_⟩
+    · have : r ∈ s0.removalBuf := hrm
+      rw [hb] at this; cases this
+    · intro y hy
+      have : y ∈ s0.clients := hy
+      rw [hc0] at this; cases this
+  have inv := sess_run _ _ _ inv0 hl
+  have hx' := hx
+  rw [← runLog_fst _ _ (fun _ => [])] at hx'
+  obtain ⟨_, _, _, _, hok⟩ := inv.cli x hx'
+  rw [← harr] at hok
+  obtain ⟨w, hh⟩ := arrivals_sim arrivals {} {} wf_fresh wf_fresh (fun _ => Iff.rfl) hok
+  refine ⟨w, ?_⟩
+  intro se
+  rw [hh se, harr]
+  exact hview se
 
 end Replicon.Joint
